@@ -356,13 +356,26 @@ var c09Prev *c09Case
 // scribble overwrites every byte of every slice reachable from v (through
 // pointers, structs, slices, arrays, interfaces).
 func scribble(v reflect.Value, depth int) {
-	if depth > 12 {
+	if depth > 60 {
 		return
 	}
 	switch v.Kind() {
-	case reflect.Ptr, reflect.Interface:
+	case reflect.Ptr:
 		if !v.IsNil() {
 			scribble(v.Elem(), depth+1)
+		}
+	case reflect.Interface:
+		if !v.IsNil() {
+			if v.CanSet() && v.Elem().Kind() != reflect.Ptr {
+				// the dynamic value of an interface is not addressable: scribble over an addressable copy of it (slices
+				// inside still point at the memory the copy owns — or shares) and store the copy back
+				nv := reflect.New(v.Elem().Type()).Elem()
+				nv.Set(v.Elem())
+				scribble(nv, depth+1)
+				v.Set(nv)
+			} else {
+				scribble(v.Elem(), depth+1)
+			}
 		}
 	case reflect.Struct:
 		for i := 0; i < v.NumField(); i++ {
@@ -407,6 +420,37 @@ func copyIndependence(c *fw.Ctx, s *chain.Sim, b types.Block, rp map[string]any)
 			res.Violate(fw.Violation{Key: "c09-copy-aliases:V2Transaction.DeepCopy", What: "mutating a DeepCopy changed the original transaction", Replay: rp})
 		}
 		res.Count("copy:V2Transaction.DeepCopy")
+	}
+	// the same on transactions whose policies nest thresholds several levels deep with every branch revealed
+	// (the wallet's own policies hide their inner branches behind opaque hashes)
+	for depth := 1; depth <= 4; depth++ {
+		var nest func(d int) types.SpendPolicy
+		nest = func(d int) types.SpendPolicy {
+			pk := types.PolicyPublicKey(s.W.Keys[d%len(s.W.Keys)].PublicKey())
+			uc := types.SpendPolicy{Type: types.PolicyTypeUnlockConditions(types.StandardUnlockConditions(s.W.Keys[(d+1)%len(s.W.Keys)].PublicKey()))}
+			if d == 0 {
+				return types.PolicyThreshold(1, []types.SpendPolicy{pk, types.PolicyHash(types.Hash256{byte(d), 7}), uc})
+			}
+			return types.PolicyThreshold(2, []types.SpendPolicy{nest(d - 1), pk, types.PolicyThreshold(1, []types.SpendPolicy{nest(d - 1), types.PolicyAbove(uint64(d))}), uc})
+		}
+		addr := nest(depth).Address()
+		t := types.V2Transaction{
+			SiacoinInputs: []types.V2SiacoinInput{{Parent: types.SiacoinElement{StateElement: types.StateElement{LeafIndex: 3, MerkleProof: []types.Hash256{{1}, {2}}}, SiacoinOutput: types.SiacoinOutput{Address: addr}},
+				SatisfiedPolicy: types.SatisfiedPolicy{Policy: nest(depth), Signatures: []types.Signature{{1}, {2}}, Preimages: [][32]byte{{3}}}}},
+			SiafundInputs: []types.V2SiafundInput{{Parent: types.SiafundElement{StateElement: types.StateElement{LeafIndex: 4, MerkleProof: []types.Hash256{{5}}}, SiafundOutput: types.SiafundOutput{Address: addr, Value: 1}},
+				SatisfiedPolicy: types.SatisfiedPolicy{Policy: nest(depth)}}},
+			ArbitraryData: []byte("verif"),
+		}
+		orig := chain.Encode(t)
+		cp := t.DeepCopy()
+		if !bytes.Equal(chain.Encode(cp), orig) {
+			res.Violate(fw.Violation{Key: "c09-deepcopy-differs", What: "V2Transaction.DeepCopy is not equal to its original (nested policies)", Replay: rp})
+		}
+		scribble(reflect.ValueOf(&cp), 0)
+		if !bytes.Equal(chain.Encode(t), orig) {
+			res.Violate(fw.Violation{Key: "c09-copy-aliases:V2Transaction.DeepCopy:nested-policy", What: fmt.Sprintf("mutating a DeepCopy changed the original transaction (threshold policies nested %d deep)", depth+1), Replay: rp})
+		}
+		res.Count("copy:V2Transaction.DeepCopy:nested")
 	}
 	n := 0
 	for _, e := range s.St.SortedSC() {
